@@ -3,6 +3,7 @@ package h_c17
 import (
 	"github.com/elys-network/elys/zzvrf/h_c08"
 	"github.com/elys-network/elys/zzvrf/h_c10"
+	"github.com/elys-network/elys/zzvrf/h_c16"
 	"github.com/elys-network/elys/zzvrf/h_c20"
 )
 
@@ -25,3 +26,7 @@ func H_Owner_Perpetual_CloseUpdate() { h_c10.H_Perp_OwnerOnly_ByOther() }
 //vrf:cover refused
 //vrf:bound see h_c08.H_Close_ByOther
 func H_Owner_Leveragelp_Close() { h_c08.H_Close_ByOther() }
+
+//vrf:cover removed-stays-out never-admitted-stays-out
+//vrf:bound see h_c16.H_FeederSet_GovernanceOnly
+func H_Oracle_FeederSet_GovernanceOnly() { h_c16.H_FeederSet_GovernanceOnly() }
